@@ -73,6 +73,10 @@ def rand_param(rng):
     return ('rblk', rng.choice(RBLK_SIZES))
 
 
+def rclass(t):
+    return 'f' if t in ('f', 'd') else 'x' if t == 'ld' else 'i'
+
+
 def family(rng, what):
     """-> list of (params, ret) differing in one detail"""
     pre = [rand_param(rng) for _ in range(rng.choice([0, 0, 1, 2, 5, 6]))]
@@ -101,6 +105,12 @@ def family(rng, what):
         t = rng.choice(RETS2)
         fam = [(pre + post, (t, u) if rng.random() < 0.5 else (u, t)) for u in rng.sample(sorted(set(RETS2)), rng.randint(3, 6))]
         fam += [(pre + post, (t,)), (pre + post, fam[0][1][::-1])]    # one result only; the first pair in the other order
+        for _ in range(rng.choice([0, 1, 2])):      # three / four results, at most two per register class, any order
+            while True:
+                ts = tuple(rng.choice(RETS2) for _ in range(rng.choice([3, 3, 4])))
+                if all(sum(1 for x in ts if rclass(x) == c) <= 2 for c in 'ifx'):
+                    break
+            fam.append((pre + post, ts))
         return [f for k, f in enumerate(fam) if f not in fam[:k]]
     else:   # nargs
         base = pre + post
@@ -157,7 +167,7 @@ def callee_text(c):
     return o + ['  ' + l for l in b] + ['  endfunc']
 
 
-RLOCALS = 'i64:q0, i64:q1, d:qd0, d:qd1, f:qf0, f:qf1, ld:qx0, ld:qx1'
+RLOCALS = ', '.join('i64:q%d, d:qd%d, f:qf%d, ld:qx%d' % (k, k, k, k) for k in range(4))
 NARROW = {'i64': 'mov', 'u64': 'mov', 'p': 'mov', 'i32': 'ext32', 'u32': 'uext32', 'i16': 'ext16', 'u16': 'uext16', 'i8': 'ext8', 'u8': 'uext8'}
 
 
@@ -209,7 +219,7 @@ def call_lines(d, k, call):
             args.append(fconst(p, j))
         else:
             args.append('iv%d' % j)
-    res = [{'d': 'rd', 'f': 'rf', 'ld': 'rx'}.get(ty, 'ri') + ('2' if k else '') for k, ty in enumerate(c['rets'])]
+    res = [{'d': 'rd', 'f': 'rf', 'ld': 'rx'}.get(ty, 'ri') + (str(k + 1) if k else '') for k, ty in enumerate(c['rets'])]
     for x in res:     # whatever the register held before is not part of the result
         if x.startswith('ri'):
             o.append('mov %s, -1' % x)
@@ -230,7 +240,7 @@ def call_lines(d, k, call):
 
 def driver_text(d, name, calls):
     o = ['%s: func i64, i64:a0, i64:a1' % name,
-         '  local i64:r, i64:t, i64:t3, d:dt, i64:ri, d:rd, f:rf, ld:rx, i64:ri2, d:rd2, f:rf2, ld:rx2, i64:buf, i64:rb, '
+         '  local i64:r, i64:t, i64:t3, d:dt, i64:ri, d:rd, f:rf, ld:rx, ' + ', '.join('i64:ri%d, d:rd%d, f:rf%d, ld:rx%d' % (k, k, k, k) for k in (2, 3, 4)) + ', i64:buf, i64:rb, '
          + ', '.join('i64:iv%d' % k for k in range(NP)) + ', ' + ', '.join('i64:bp%d' % k for k in range(NP))]
     b = ['mov r, 5', 'mov t, 0', 'mov ri, 0', 'alloca buf, %d' % (8 * NW), 'alloca rb, 48']
     for k in range(NW):
